@@ -27,7 +27,7 @@ import (
 )
 
 // types usable against SQLite (column names are valid identifiers or quoted)
-var sqliteStructs = []string{"Person", "Address", "Manager", "Embed", "EmbedPtr", "Deep", "Deep4", "Contact", "AutoID", "Omit", "PtrFields", "Unicode", "Priced", "Mixed", "Doc", "BlobOpt"}
+var sqliteStructs = []string{"Person", "Address", "Manager", "Embed", "EmbedPtr", "Deep", "Deep4", "Contact", "AutoID", "Omit", "PtrFields", "Unicode", "Priced", "Mixed", "Doc", "BlobOpt", "Tracked"}
 
 func quoteCol(c string) string {
 	if strings.HasPrefix(c, "\"") || strings.HasPrefix(c, "'") {
@@ -186,6 +186,9 @@ func canonVal(f reflect.Value) string {
 	if f.CanInterface() {
 		if n, ok := f.Interface().(sql.NullInt64); ok && !n.Valid {
 			return "null" // what it stands for, whatever Int64 holds
+		}
+		if c, ok := f.Interface().(Counted); ok {
+			return fmt.Sprint(c.V) // the value it stands for; N only counts Scan calls
 		}
 		return fmt.Sprintf("%v", f.Interface())
 	}
@@ -574,6 +577,10 @@ func runRoundTrip(rg *rng, sc rtScenario) (res rtResult) {
 		}
 		for i := 0; i < slicePtr.Elem().Len(); i++ {
 			got = append(got, e.canon(slicePtr.Elem().Index(i)))
+			// every element GetAll appends is a fresh value: a Scanner member saw at most one Scan
+			if m := countedFresh(slicePtr.Elem().Index(i)); m != "" {
+				res.fail("getall-element-not-fresh", fmt.Sprintf("row %d: %s", i, m))
+			}
 		}
 	}
 	// ---- the same read, hand-written ------------------------------------
